@@ -391,6 +391,10 @@ def replay(ctx, path):
             iters.append(rp["rcase"]["iter"])
     h = run_hunt(ctx, binary, direct, iters, 0)
     fails = [r for r in (h.get("handed") or []) if r["found"]]
+    r32 = os.path.join(ctx.dir, "replay32.jsonl")
+    if rp.get("case32") and os.path.exists(r32):
+        # round 7: the binary32 stream carries its own residual oracle (harness/c05/f32.go oracle32)
+        fails += [{"failure": x["oracle"]} for x in vlib.load_jsonl(r32) if isinstance(x, dict) and x.get("oracle")]
     print("model and Coq residual checker accept the replayed case: %s" % agree)
     for r in fails:
         print("property oracle on the implementation: %s" % r["failure"])
